@@ -50,8 +50,23 @@ void h_plain_byte_array(void) {
   int64_t r = carquet_decode_plain_byte_array(nondet_ptr(), nondet_size_t(), nondet_ptr(), nondet_i64());
   CQV_CANARY("returns"); if (r > 0) CQV_CANARY("can consume bytes"); if (r < 0) CQV_CANARY("can fail");
 }
+/* loop-free; count*fixed_len is a product of two variables => harness is the contract, SMT back end */
 void h_plain_fixed(void) {
   GHOSTS();
-  int64_t r = carquet_decode_plain_fixed_byte_array(nondet_ptr(), nondet_size_t(), nondet_ptr(), nondet_i64(), nondet_i32());
+  size_t input_size = nondet_size_t();
+  int64_t count = nondet_i64();
+  int32_t fixed_len = nondet_i32();
+  __CPROVER_assume(input_size <= CQV_MAXBUF && cqv_any_bytes <= CQV_MAXBUF);
+  __int128 prod = (__int128)count * (__int128)fixed_len;
+  _Bool honest = count >= 0 && fixed_len > 0 && prod <= (__int128)CQV_MAXBUF;
+#ifndef CQV_HUGE
+  __CPROVER_assume(count < 0 || fixed_len <= 0 || honest);   /* A2 for the output object */
+#endif
+  size_t out_bytes = honest ? (size_t)prod : cqv_any_bytes;
+  uint8_t *in = nondet_bool() ? malloc(input_size) : NULL;
+  uint8_t *out = nondet_bool() ? malloc(out_bytes) : NULL;
+  int64_t r = carquet_decode_plain_fixed_byte_array(in, input_size, out, count, fixed_len);
+  __CPROVER_assert(r == -1 || (in != NULL && out != NULL && count >= 0 && fixed_len > 0 && r >= 0 && (size_t)r <= input_size), "error or consumed <= input_size");
+  __CPROVER_assert(r == -1 || (__int128)r == prod, "consumed == count*fixed_len (exact)");
   CQV_CANARY("returns"); if (r > 0) CQV_CANARY("can consume bytes"); if (r < 0) CQV_CANARY("can fail");
 }
